@@ -850,3 +850,54 @@ def run(chk):
   unnesting_order(chk, 'C09-R5')
   K.translation_not_memoised(chk, 'C09-R5')
   K.entangle_attached(chk, 'C09-R5')
+  dialect_names_exist(chk, 'C09-R1')
+
+
+def dialect_names_exist(chk, rid):
+  """A branch guarded by `<dialect>.Name() == 'X'` (or `in (...)`) is taken by
+  the dialect whose Name() is 'X': a constant that no registered dialect
+  answers with is a branch (often a diagnostic or an escaping rule) that no
+  engine reaches any more."""
+  repo = chk.repo
+  names = set()
+  for eng, cls in templates.dialect_classes(repo).items():
+    nm, _ = templates.dialect_const(repo, cls, 'Name')
+    if isinstance(nm, str):
+      names.add(nm)
+  if len(names) < 8:
+    raise AnalysisError('dialect names not recognised')
+  unknown = []
+  n_cmp = 0
+  for rel in ('compiler/expr_translate.py', 'compiler/universe.py', 'compiler/rule_translate.py'):
+    m = repo.mod(rel)
+    for fi in m.funcs.values():
+      v = None
+      for c in walk_local(fi.node):
+        if not (isinstance(c, ast.Compare) and len(c.ops) == 1 and
+                isinstance(c.ops[0], (ast.Eq, ast.NotEq, ast.In, ast.NotIn))):
+          continue
+        if v is None:
+          v = FnView.of(repo, fi)
+        l = v.expand(c.left, 2)
+        if not (isinstance(l, ast.Call) and call_tail(l) == 'Name' and
+                'dialect' in (norm(l.func, 80))):
+          continue
+        try:
+          consts = tables.const_value(v.expand(c.comparators[0], 2))
+        except AnalysisError:
+          continue
+        consts = [consts] if isinstance(consts, str) else list(consts)
+        n_cmp += 1
+        for k in consts:
+          if isinstance(k, str) and k not in names:
+            unknown.append((fi, c, k))
+  if n_cmp < 5:
+    raise AnalysisError('comparisons of dialect names not recognised (%d)' % n_cmp)
+  chk.ob(rid, not unknown, None,
+         'every constant a dialect name is compared with is the name of a registered dialect '
+         '(%d comparisons)' % n_cmp,
+         "'%s' is compared with <dialect>.Name() in %s but no dialect is called that (names: %s): "
+         'the branch - a diagnostic, an escaping rule - is dead for the engine it was written for'
+         % (unknown[0][2] if unknown else '', unknown[0][0].qualname if unknown else '', sorted(names)),
+         fi=unknown[0][0] if unknown else repo.func('expr_translate.QL.ConvertToSql'),
+         node=unknown[0][1] if unknown else None)
